@@ -46,6 +46,13 @@ RESTRICTIONS = [
     ("include of an extern rule", "@export A = >E; @extern(crate::f) E;"),
     ("include of a missing rule, nested", "@export A = 'a' { [ >Nope ] } ;"),
 ]
+# include cycles of every shape: direct, mutual, and cycles that close only after another include has finished
+for _lab, _t in [("direct", "@export A = 'x' >A;"), ("mutual", "@export A = >B 'x'; B = 'y' >A;"),
+                 ("after a sibling include", "@export Items = item:Ident [',' >Header ';' >Items]; Header = 'h'; @string Ident = {'a'..'z'}+;"),
+                 ("after a nested include", "@export Block = >Prefix body:Ident >Rest; Prefix = >Mark; Mark = 'm'; Rest = [';' >Block]; @string Ident = {'a'..'z'}+;"),
+                 ("through a closure after two includes", "@export L = >H >H {',' >T}; H = 'h'; T = 't' [>L];"),
+                 ("three rules, last closes", "@export A = >B; B = >C 'b' >D; C = 'c'; D = 'd' {>A};")]:
+    RESTRICTIONS.append(("include cycle (%s)" % _lab, _t))
 # "mixing `@:` with named fields is rejected" - in every order and wrapping, on a rule that carries no other
 # restriction (not exported, no directives), used from an exported root
 for _ov in ("@:B", "[@:B]", "(@:B | @:C)", "{@:B}", "'<' @:B '>'"):
